@@ -356,6 +356,173 @@ R.contract(
 )
 R.spec_funcs["NOT_SET_"] = lambda it: Global("schemathesis.core:NOT_SET").make(it, "NOT_SET")
 
+
+# ------------------------------------------------------------------------------------------------- link parameters: explicit `in.name` and implicit locations; malformed expressions are schema errors
+ND_ = "schemathesis.specs.openapi.expressions.nodes:"
+TParam = lambda n, loc: Obj("spec:TargetParam", name=Const(n), location=Const(loc))
+R.nominal_methods["spec:LinkTarget"] = {"iter_parameters": lambda it, obj, a, k: list(obj.fields["params"])}
+R.nominal_methods["spec:LinkSource"] = {"iter_parameters": lambda it, obj, a, k: list(obj.fields["params"])}
+R.exception_classes["TransitionValidationError"] = "schemathesis.core.errors:TransitionValidationError"
+R.exception_classes["InvalidTransition"] = "schemathesis.core.errors:InvalidTransition"
+R.exception_classes["RuntimeExpressionError"] = "Exception"
+
+
+class _TargetWithParams(D):
+    def make(self, it, name, idx=()):
+        from pyvc.values import VObj
+
+        spec_ = Choice((), (("id", "path"),), (("id", "query"), ("id", "path")), (("q", "query"), ("id", "header"))).make(it, name + ".params")
+        params = [VObj(it.resolve_class("spec:TargetParam"), {"name": n, "location": loc}) for n, loc in spec_]
+        return VObj(it.resolve_class("spec:LinkTarget"), {"label": "GET /t", "params": params})
+
+
+R.spec_funcs["same_ref"] = lambda it, a, b: a is b
+CONTAINER_OF = "{'path': 'path_parameters', 'query': 'query', 'header': 'headers', 'cookie': 'cookies', 'body': 'body'}"
+R.contract(
+    LK + "OpenApiLink._get_parameter_container",
+    prop="C10",
+    args={"self": Obj(LK + "OpenApiLink", target=_TargetWithParams()), "location": OneOf(NoneT, Choice("path", "query", "header", "cookie")), "name": Choice("id", "q", "zz")},
+    raises=["TransitionValidationError"],
+    ensures={
+        # explicit `in.name`: the named location decides; implicit: the FIRST parameter of the target operation with that name
+        "explicit_location_decides": "implies(location is not None, result == " + CONTAINER_OF + "[location])",
+        "implicit_location_is_the_first_target_parameter_of_that_name": "implies(location is None, any(p.name == name for p in self.target.params) and "
+                                                                        "result == " + CONTAINER_OF + "[[p.location for p in self.target.params if p.name == name][0]])",
+    },
+    raises_ensures={"unknown_only_if_the_target_has_no_such_parameter": "raised == 'TransitionValidationError' and location is None and not any(p.name == name for p in self.target.params)"},
+)
+R.contracts[LK + "OpenApiLink._get_parameter_container"].inline = True
+
+
+def _parse_stub(it, env):
+    """expressions.parser.parse: a node list (here: no request reference, or one reference to the source's `query.page` / `path.gone`), or a syntax error."""
+    from pyvc.values import VObj
+
+    kind = it.path.choose([("plain", True), ("ref:query.page", True), ("ref:path.gone", True)], "parsed")
+    it.ghost["parsed_kinds"] = it.ghost["parsed_kinds"] + [(env["expr"], kind)]
+    if kind == "plain":
+        return []
+    _, ref = kind.split(":")
+    loc, par = ref.split(".")
+    return [VObj(it.resolve_class(ND_ + "NonBodyRequest"), {"location": loc, "parameter": par, "extractor": None})]
+
+
+R.contract("schemathesis.specs.openapi.expressions.parser:parse", args={"expr": Str}, returns=_parse_stub, raises=["RuntimeExpressionError"], trusted=True,
+           effects={"malformed": "ghost('malformed') + ([expr] if raised is not None else [])"}, note="lexer + parser of runtime expressions (string scanning: exercised by the repository's tests; C10 stand-in for pointers)")
+
+
+class _LinkParameters(D):
+    """The `parameters` map of a link: up to 2 entries out of `path.id`, `id`, `query.q`, `zz` (unknown to the target), each an expression (text) or a literal."""
+
+    def make(self, it, name, idx=()):
+        keys = [k for k in ("path.id", "id", "zz") if it.path.choose([(False, True), (True, True)], f"has:{k}")]
+        it.path.bounded_inputs.add("links with up to 3 parameters (explicit, implicit, unknown)")
+        return {k: OneOf(Str, Const(5)).make(it, f"{name}[{k}]") for k in keys}
+
+
+R.contract(
+    LK + "OpenApiLink._normalize_parameters",
+    prop="C10",
+    args={"self": Obj(LK + "OpenApiLink", target=_TargetWithParams(), source=Obj("spec:LinkSource", label=Str, params=ListOf(Obj("spec:TargetParam", name=Const("page"), location=Const("query")), [1], widen=False))),
+          "parameters": _LinkParameters(), "errors": ListOf(Opq("EarlierError"), [0], widen=False)},
+    ghost={"malformed": [], "parsed_kinds": []},
+    raises=[],
+    ensures={
+        # every link parameter that can be placed is kept with ITS expression, name and container, in document order
+        "placed_parameters_keep_their_expression_and_container": "all(any(p.name == n.split('.')[-1] and same_ref(p.expression, parameters[n]) for p in result) for n in parameters "
+                                                                 "if ('.' in n) or any(t.name == n for t in self.target.params))",
+        "explicit_prefix_is_the_location": "all(implies(p.location is not None, p.container_name == " + CONTAINER_OF + "[p.location]) for p in result)",
+        "nothing_else_is_produced": "length(result) == length([n for n in parameters if ('.' in n) or any(t.name == n for t in self.target.params)])",
+        # "Malformed expressions are rejected as schema errors instead of evaluating to something"
+        "a_malformed_expression_is_a_schema_error": "implies(length(ghost('malformed')) > 0, length(errors) >= length(ghost('malformed')))",
+        "a_reference_to_a_parameter_the_source_does_not_have_is_a_schema_error": "implies(any(kind == 'ref:path.gone' for e, kind in ghost('parsed_kinds')), length(errors) > 0)",
+        "an_unplaceable_parameter_is_a_schema_error": "implies('zz' in parameters, length(errors) > 0)",
+        "well_formed_links_have_no_errors": "implies(length(ghost('malformed')) == 0 and not any(kind == 'ref:path.gone' for e, kind in ghost('parsed_kinds')) and "
+                                            "all(('.' in n) or any(t.name == n for t in self.target.params) for n in parameters), length(errors) == 0)",
+    },
+    replayable=False,
+    max_paths=30000,
+)
+
+
+# ------------------------------------------------------------------------------------------------- OpenApiLink.__init__: target lookup, requestBody, merge_body; any error => InvalidTransition
+R.exception_classes["OperationNotFound"] = "schemathesis.core.errors:OperationNotFound"
+
+
+def _lookup(kind):
+    def f(it, obj, a, k):
+        from pyvc.interp import PyExc
+        from pyvc.values import VObj
+
+        it.ghost["lookups"] = it.ghost["lookups"] + [(kind, a[0])]
+        if it.path.choose([(True, True), (False, True)], "target-found"):
+            t = VObj(it.resolve_class("spec:LinkTarget"), {"label": "GET /t", "params": []})
+            it.ghost["found"] = t
+            return t
+        raise PyExc(it.make_exc(it.resolve_exc_class("OperationNotFound", None), ()))
+
+    return f
+
+
+R.nominal_methods["spec:LinkSchema"] = {"get_operation_by_id": _lookup("id"), "get_operation_by_reference": _lookup("ref")}
+R.opaque_super["LinkSchemaRef"] = ("BaseOpenAPISchema", "schemathesis.specs.openapi.schemas:BaseOpenAPISchema", "BaseSchema")
+_np = R.contracts[LK + "OpenApiLink._normalize_parameters"]
+_np.returns = lambda it, env: it.ghost.__setitem__("normalized", [fresh_opaque(it, "NormalizedParameterRef")]) or it.ghost["normalized"]
+_np.effects = {"given_parameters": "parameters"}
+_np.call_ensures = {}
+_np.requires_are_representation_invariant = True
+
+
+def _np_with_errors(it, env):
+    # the callee may append validation errors to the list it is given
+    if it.path.choose([(False, True), (True, True)], "parameter-errors"):
+        env["errors"].append(fresh_opaque(it, "ParameterError"))
+        it.ghost["parameter_errors"] = True
+    out = [fresh_opaque(it, "NormalizedParameterRef")]
+    it.ghost["normalized"] = out
+    return out
+
+
+_np.returns = _np_with_errors
+def _lru_cache(it, a, k):
+    from pyvc.interp import BuiltinFn
+
+    # lru_cache(maxsize)(f): caching is identity on a pure function (the cache key, the case id, is part of the C10 assumptions)
+    return BuiltinFn("lru_cache(maxsize)", lambda it2, a2, k2: a2[0])
+
+
+R.extern["functools.lru_cache"] = _lru_cache
+class _OpenApiSchemaObj(D):
+    """A schema object that IS a BaseOpenAPISchema (for the isinstance assertion) with the two lookups as nominal methods."""
+
+    def make(self, it, name, idx=()):
+        from pyvc.values import VObj
+
+        cls = it.resolve_class("spec:LinkSchema")
+        if not cls.bases:
+            cls.bases = [it.resolve_class("schemathesis.specs.openapi.schemas:BaseOpenAPISchema")]
+        return VObj(cls, {})
+
+
+LinkDef = DictOf(optional={"operationId": Str, "parameters": Opq("LinkParametersRef"), "requestBody": OneOf(Opq("LinkBody"), Const(0), Const("")), "x-schemathesis": DictOf(optional={"merge_body": Bool, "other-setting": Const(1)})}, required={"operationRef": Str})
+R.contract(
+    LK + "OpenApiLink.__init__",
+    prop="C10",
+    args={"self": Obj(LK + "OpenApiLink"), "name": Str, "status_code": Str, "definition": LinkDef, "source": Obj("spec:LinkSource", label=Str, params=Const(()), schema=_OpenApiSchemaObj())},
+    ghost={"lookups": [], "found": None, "normalized": None, "parameter_errors": False, "given_parameters": None},
+    raises=["InvalidTransition"],
+    ensures={
+        # operationId / operationRef targets
+        "target_looked_up_by_operation_id_when_given_else_by_reference": "ghost('lookups') == ([('id', definition['operationId'])] if 'operationId' in definition else [('ref', definition['operationRef'])]) and self.target is ghost('found')",
+        "parameters_and_body_of_the_definition": "self.parameters is ghost('normalized') and (same_ref(self.body, definition['requestBody']) if 'requestBody' in definition else self.body is NOT_SET_())",
+        "merge_body_defaults_to_true": "self.merge_body == (definition['x-schemathesis']['merge_body'] if 'x-schemathesis' in definition and 'merge_body' in definition['x-schemathesis'] else True)",
+        # a link with ANY validation error never becomes a usable link
+        "constructed_only_without_errors": "ghost('found') is not None and not ghost('parameter_errors')",
+    },
+    raises_ensures={"rejected_only_for_a_missing_target_or_parameter_errors": "raised == 'InvalidTransition' and (ghost('found') is None or ghost('parameter_errors'))"},
+    replayable=False,
+)
+
 LEVEL_TEXT = ("Deductive: structural recursion of evaluate/_evaluate_nested against a denotation (lists of any length by invariant, dicts up to 2 entries), node evaluation, "
               "status matching; the expression lexer/parser and JSON-pointer resolution are covered by exhaustive bounded stand-ins. Level other.")
 LEVEL_NOTE = "Trusted: lexer/parser/resolve_pointer (stand-ins), requests URL preparation, expand_status_code (C04), pyvc semantics (E9)."
